@@ -317,7 +317,11 @@ var axGroups = []axGroup{
 	{[]string{"(strarr "}, `(declare-fun strarr (Int) (Array Int Int))
 (assert (forall ((s Int) (i Int)) (! (= (select (strarr s) i) (strbyte s i)) :pattern ((select (strarr s) i)))))
 `},
-	{[]string{"(mapcard "}, "(declare-fun mapcard ((Array Int Bool)) Int)\n"},
+	{[]string{"(mapcard "}, `(declare-fun mapcard ((Array Int Bool)) Int)
+(assert (forall ((d (Array Int Bool))) (! (>= (mapcard d) 0) :pattern ((mapcard d)))))
+(assert (= (mapcard ((as const (Array Int Bool)) false)) 0))
+(assert (forall ((d (Array Int Bool)) (k Int)) (! (=> (= (mapcard d) 0) (not (select d k))) :pattern ((mapcard d) (select d k)))))
+`},
 	{[]string{"(shl ", "(shr "}, "(declare-fun shl (Int Int) Int)\n(declare-fun shr (Int Int) Int)\n"},
 	{[]string{"(band64 ", "(bor64 ", "(bxor64 ", "(bandnot64 ", "(pow2 "}, "(declare-fun band64 (Int Int) Int)\n(declare-fun bor64 (Int Int) Int)\n(declare-fun bxor64 (Int Int) Int)\n(declare-fun bandnot64 (Int Int) Int)\n"},
 	{[]string{"(band32 ", "(bor32 ", "(bxor32 ", "(bandnot32 "}, "(declare-fun band32 (Int Int) Int)\n(declare-fun bor32 (Int Int) Int)\n(declare-fun bxor32 (Int Int) Int)\n(declare-fun bandnot32 (Int Int) Int)\n"},
